@@ -20,6 +20,7 @@ import (
 	"github.com/pion/interceptor/pkg/stats"
 	"github.com/pion/interceptor/pkg/twcc"
 	"github.com/pion/interceptor/vsched"
+	"github.com/pion/rtp"
 )
 
 // TransportCCURI is the header extension URI of transport-wide congestion control.
@@ -123,14 +124,22 @@ func Kinds() []*Kind {
 			f.OnNewPeerConnection(func(_ string, g stats.Getter) { x.Stats = g })
 			return mk(f, nil, x)
 		}},
-		{Name: "packetdump-receiver", Variants: 1, New: func(v int) (interceptor.Interceptor, *Extra, error) {
+		{Name: "packetdump-receiver", Variants: 2, New: func(v int) (interceptor.Interceptor, *Extra, error) {
 			x := &Extra{DumpRTP: &bytes.Buffer{}, DumpRTCP: &bytes.Buffer{}}
-			f, err := packetdump.NewReceiverInterceptor(packetdump.RTPWriter(x.DumpRTP), packetdump.RTCPWriter(x.DumpRTCP))
+			opts := []packetdump.PacketDumperOption{packetdump.RTPWriter(x.DumpRTP), packetdump.RTCPWriter(x.DumpRTCP)}
+			if v == 1 {
+				opts = append(opts, packetdump.RTPBinaryFormatter(dumpBinary))
+			}
+			f, err := packetdump.NewReceiverInterceptor(opts...)
 			return mk(f, err, x)
 		}},
-		{Name: "packetdump-sender", Variants: 1, New: func(v int) (interceptor.Interceptor, *Extra, error) {
+		{Name: "packetdump-sender", Variants: 2, New: func(v int) (interceptor.Interceptor, *Extra, error) {
 			x := &Extra{DumpRTP: &bytes.Buffer{}, DumpRTCP: &bytes.Buffer{}}
-			f, err := packetdump.NewSenderInterceptor(packetdump.RTPWriter(x.DumpRTP), packetdump.RTCPWriter(x.DumpRTCP))
+			opts := []packetdump.PacketDumperOption{packetdump.RTPWriter(x.DumpRTP), packetdump.RTCPWriter(x.DumpRTCP)}
+			if v == 1 {
+				opts = append(opts, packetdump.RTPBinaryFormatter(dumpBinary))
+			}
+			f, err := packetdump.NewSenderInterceptor(opts...)
 			return mk(f, err, x)
 		}},
 		{Name: "intervalpli", Variants: 1, New: func(v int) (interceptor.Interceptor, *Extra, error) {
@@ -176,6 +185,15 @@ func Kinds() []*Kind {
 			return mk(f, err, nil)
 		}},
 	}
+}
+
+// dumpBinary is a binary dump format that writes the whole packet (header, CSRCs, extensions, payload).
+func dumpBinary(pkt *rtp.Packet, _ interceptor.Attributes) ([]byte, error) {
+	b, err := pkt.Marshal()
+	if err != nil {
+		return nil, err
+	}
+	return append([]byte{byte(len(b) >> 8), byte(len(b))}, b...), nil
 }
 
 // KindByName finds a kind.
